@@ -1226,6 +1226,27 @@ func c15(w *core.World, r *core.Report) {
 		}
 	}
 
+	// no report hangs on a comparison of stored bytes: the stores keep values as sent (1.50 and 1.5, prefix or no
+	// prefix), only EqualTypedValues after TypedValueToYANGType says whether two values are the same - and a
+	// 'same bytes, nothing to do' shortcut also skips the OVERRULED reports of the intents below the ruling one
+	{
+		nb := 0
+		for _, sdi := range sends {
+			if sdi.event != 3 {
+				continue
+			}
+			bad := false
+			for _, cond := range core.ControlConds(sdi.send) {
+				sl := core.DataSlice(sdi.send.Parent(), []ssa.Value{cond})
+				if sl.HasCallTo("bytes.Equal", "bytes.Compare") && sl.HasCallTo("cache.Update.Bytes") {
+					bad = true
+				}
+			}
+			nb++
+			r.Check(!bad, "EQUAL-EXACT", core.Site(run, "report not decided by raw bytes (reason=%d)", sdi.reason), w.InstrPos(sdi.send), "whether this report is sent depends on a byte comparison of stored values: equal values can differ in their stored bytes, and a shortcut for 'same bytes' skips the reports about the intents that do not rule")
+		}
+	}
+
 	// ruling = lowest priority: the sort comparator orders by Priority ascending
 	r.Rule("RULING-FIRST", 1, "the intents of a path are sorted by ascending priority (ties by timestamp) before element [0] is treated as the ruling one.")
 	for _, a := range sortComparators(run) {
